@@ -665,7 +665,9 @@ def cmd_rule(repo, res, tier, rule="SK-CMD"):
         tag = fl(flags)
         # V1: body of the command function is the raw command hole
         defs = funcs.get("_H__command__H_cmd_H__id__H", [])
-        ok = len(defs) == 1 and [s.words for s in stmts(defs[0].body.body)] == [["H__cmd__H"]]
+        # exactly one statement, a single hole (what that hole carries -- the text of an element of the command set -- is NAMES:cmd-body)
+        body = [s.words for s in stmts(defs[0].body.body)] if len(defs) == 1 else []
+        ok = len(body) == 1 and len(body[0]) == 1 and re.fullmatch(r"H__\w+__H", body[0][0]) is not None
         rec("V1:body-is-command-text", ok, "_<cmd>_cmd_<id> () { <command text> }", defs[0].line if defs else 0)
         sites = []
         for n, loops, conds, f in B.walk(tree):
